@@ -355,6 +355,22 @@ def run_case(case):
                 fail("search-raises", "match", style, pairs, "%s: %s" % (type(exc).__name__, str(exc)[:160]))
                 continue
             judge(pairs, text, "match", style)
+    # one finder object used on another graph first, then on this one: the graph given to find() is searched
+    if case["queries"]:
+        other_docs = [docs.build(sp) for sp in doc_sets()[(case["set"] + 1) % len(doc_sets())]]
+        other_graph = RDFWriter(other_docs, rdf_subclassing=False).convert_to_rdf()
+        for q in case["queries"][:4]:
+            current = {"queries": [[[k, list(p)] for k, p in q]], "fuzzy": [], "reused_finder": True}
+            pairs = fix_ids(documents, [(k, tuple(p)) for k, p in q])
+            finder = FuzzyFinder()
+            try:
+                finder.find(mode="match", graph=other_graph, q_params=query_dict(pairs))
+                text = finder.find(mode="match", graph=graph, q_params=query_dict(pairs))
+                execs += 1
+            except Exception as exc:
+                fail("search-raises", "match", "dict-reused-finder", pairs, "%s: %s" % (type(exc).__name__, str(exc)[:160]))
+                continue
+            judge(pairs, text, "match", "dict-reused-finder")
     for sel, terms in case["fuzzy"]:
         current = {"queries": [], "fuzzy": [[sel, terms]]}
         pairs = [(k, (a, t)) for k in ("Doc", "Sec", "Prop") if k in sel for a in sel[k] for t in terms]
